@@ -22,7 +22,7 @@
 // Output: <frames> | <state>
 //   frames: `p1>chunk:c1,p1>nack:c1,p2>req:c3,p2>ack:c1:1` (by peer name, per peer in order) or `-`
 //   c23 state: act=<p:c:age;..> pp=<p:n;..> q=<p:c;..> done=<n> rot=<ns> held=<c;..>
-//   c24 state: pf=<c:p:attempts:inflight:next_rel|max:exp_rel|none:prov;..> ar=<p:n;..> held=<c;..>
+//   c24 state: pf=<c:p:attempts:inflight:next_rel|max:exp_rel|none:prov:since_last_dispatch|never;..> ar=<p:n;..> held=<c;..>
 #include "common/lineproto.hpp"
 #include "common/vclock.hpp"
 
@@ -237,8 +237,10 @@ std::string state_c24() {
                               ? "none"
                               : std::to_string(std::chrono::duration_cast<std::chrono::nanoseconds>(st.manifest_expires.time_since_epoch()).count()
                                                - wall_start_s * 1'000'000'000LL);
+        std::string ld = st.last_dispatch == std::chrono::steady_clock::time_point{}
+                             ? "never" : std::to_string((now - st.last_dispatch).count());
         pf.push_back(name_of(st.chunk_id) + ":" + name_of(st.peer_id) + ":" + std::to_string(st.attempts) + ":" + (st.in_flight ? "1" : "0")
-                     + ":" + next + ":" + exp + ":" + std::to_string(st.provider_count));
+                     + ":" + next + ":" + exp + ":" + std::to_string(st.provider_count) + ":" + ld);
     }
     std::sort(pf.begin(), pf.end());
     for (const auto& [k, n] : node->active_peer_requests_) ar.push_back(name_of_key(k, true) + ":" + std::to_string(n));
